@@ -177,6 +177,78 @@ class LockAnalysis:
                 out.append((ident, cls, ret, bid, ev))
         return out
 
+    # ---- interprocedural (lock classes)
+    def held_classes_at(self, fn, ev):
+        a = self.analyse(fn)
+        if not a['events']:
+            return (frozenset(), frozenset())
+        cls = {ident: c for _, _, ident, c, _ in a['events']}
+        must, may = self.held_at(fn, ev)
+        return (frozenset(cls[i] for i in must), frozenset(cls[i] for i in may))
+
+    def entry_classes(self, exclude=frozenset()):
+        """(must, may): {Fn: frozenset(lock classes held at entry)}.  must = intersection over call sites of
+        (held at site + caller's entry); may = union.  Callers in `exclude` (single-threaded init/dctor code) are
+        ignored for callees that also have other callers."""
+        P = self.P
+        sites = {}   # callee -> [(caller, ev)]
+        for f in P.fns:
+            for ev in f.events(('call',)):
+                for t in P.call_targets(f, ev):
+                    sites.setdefault(t, []).append((f, ev))
+        TOP = None
+        must = {}
+        may = {}
+        for f in P.fns:
+            ss = sites.get(f, [])
+            inc = [s for s in ss if s[0] not in exclude]
+            if not inc:
+                must[f] = frozenset(); may[f] = frozenset()
+            else:
+                must[f] = TOP; may[f] = frozenset()
+        changed = True
+        it = 0
+        while changed and it < 50:
+            changed = False
+            it += 1
+            for f in P.fns:
+                ss = [s for s in sites.get(f, []) if s[0] not in exclude]
+                if not ss:
+                    continue
+                nm = TOP
+                ny = set()
+                for c, ev in ss:
+                    hm, hy = self.held_classes_at(c, ev)
+                    cm = must.get(c)
+                    ny |= hy | may.get(c, frozenset())
+                    if cm is TOP:
+                        continue      # unknown caller state does not constrain the intersection yet
+                    s = hm | cm
+                    nm = s if nm is TOP else (nm & s)
+                ny = frozenset(ny)
+                if nm is not TOP and nm != must[f]:
+                    must[f] = nm; changed = True
+                if ny != may[f]:
+                    may[f] = ny; changed = True
+        for f in P.fns:
+            if must[f] is TOP:
+                must[f] = frozenset()
+        self._sites = sites
+        return must, may
+
+    def order_edges(self, may_entry):
+        """{(classA, classB): (Fn, ev)}: class A (may be) held while class B is acquired."""
+        edges = {}
+        for f in self.P.fns:
+            a = self.analyse(f)
+            for ev, kind, ident, cls, _ in a['events']:
+                if kind != 'acq':
+                    continue
+                _, hy = self.held_classes_at(f, ev)
+                for h in hy | may_entry.get(f, frozenset()):
+                    edges.setdefault((h, cls), (f, ev))
+        return edges
+
     def unmatched_release(self, fn):
         """Releases of an identity that is not must-held (and has an acquire of a different identity in the
         same function with the same class) -> identity mismatch candidates."""
